@@ -1,6 +1,7 @@
 """Collection of data structures to handle elf files"""
 
 import enum
+import struct
 
 from .. import header
 from ...arch.arch_info import Endianness
@@ -372,3 +373,17 @@ class HeaderTypes:
                 ],
             )
             assert self.DynamicEntry.size == 8
+
+        # The fields are created without byte order, apply the requested one:
+        prefix = "<" if endianness == Endianness.LITTLE else ">"
+        for header_type in (
+            self.ElfHeader,
+            self.SectionHeader,
+            self.ProgramHeader,
+            self.SymbolTableEntry,
+            self.RelocationTableEntry,
+            self.DynamicEntry,
+        ):
+            for field in header_type._fields:
+                fmt = field.packer.format.lstrip("<>=@!")
+                field.packer = struct.Struct(prefix + fmt)
